@@ -65,6 +65,7 @@ type Sched struct {
 	clock       int64
 	timers      []*timer
 	spins       int
+	atEnd       []func()
 	lonelyPolls int
 	deadlines   []deadlineEntry
 	sig         chain
@@ -145,6 +146,9 @@ func runOne(opts Options, body func()) *Execution {
 		<-t.exited
 	}
 	S = nil
+	for _, f := range s.atEnd {
+		f()
+	}
 	s.x.Steps = s.steps
 	s.x.VTime = s.clock
 	return s.x
@@ -518,4 +522,12 @@ func Logf(format string, a ...any) {
 func Aborting() bool {
 	s := S
 	return s != nil && s.aborting.Load()
+}
+
+// AtEnd registers a clean-up to run (on the driver goroutine) once the current
+// execution is over and all its threads have exited.
+func AtEnd(f func()) {
+	if s := S; s != nil {
+		s.atEnd = append(s.atEnd, f)
+	}
 }
